@@ -8,7 +8,7 @@ from .. import common as C
 from .. import specgen as G
 
 LEVEL = "proof"
-N = {"quick": 170, "thorough": 12000}
+N = {"quick": 170, "thorough": 2500}
 
 # message template -> rule code of Spec/Rules.v
 TEMPLATES = [
